@@ -105,6 +105,19 @@ pub fn kf3_reg() -> Vec<String> {
 pub fn kf4_enc() -> Vec<String> {
     ["new 25 1=S3", "deliver r pad 1 S0.5.e -", "run 2", "ack 2", "deliver c pad 1 S0.6.e -", "run 3", "ack 3", "dump"].iter().map(|s| s.to_string()).collect()
 }
+/// K-f5 over the real store (DEFAULT cache, validations never overlap): addresses carry no kind tag, so the chunk `Ck1`
+/// whose bytes are owner 0's public key has the owner's scratchpad / transaction key.  An accepted scratchpad that is
+/// cached but not yet acknowledged is not in the index `RecordStoreHasKey` reads: the chunk REPLACES it, and the
+/// owner's later versions are refused (the local read returns the chunk).  Then the acknowledged case: the chunk is
+/// "already there" and the pad stays.
+pub fn kf5_squat() -> Vec<String> {
+    ["new 25 -", "deliver r pad 1 S0.3.v -", "has 1", "get 1", "deliver r chunk 1 Ck1 -", "run 1", "run 2", "ack 1", "ack 2", "get 1", "deliver r pad 1 S0.5.v -", "dump",
+     "new 25 1=S3", "deliver r chunk 1 Ck1 -", "deliver r pad 1 S0.5.v -", "@settle", "dump",
+     "new 25 -", "deliver r chunk 1 Ck1 -", "@settle", "deliver r pad 1 S0.5.v -", "deliver r tx 1 T0.1.v -", "dump"]
+        .iter()
+        .map(|s| s.to_string())
+        .collect()
+}
 /// the scratchpad regress with the DEFAULT cache size: 25 puts of other keys between the two updates
 pub fn default_cache_regress() -> Vec<String> {
     let mut v = vec!["new 25 1=S3".to_string(), "deliver r pad 1 S0.7.v -".to_string()];
@@ -148,7 +161,7 @@ fn benign() -> Vec<String> {
 impl Gen {
     pub fn new(n: u64, rng: Rng) -> Self {
         let mut queue = VecDeque::new();
-        for l in kf3_pad().into_iter().chain(kf3_tx()).chain(kf3_reg()).chain(kf4_enc()).chain(default_cache_regress()).chain(benign()) {
+        for l in kf3_pad().into_iter().chain(kf3_tx()).chain(kf3_reg()).chain(kf4_enc()).chain(kf5_squat()).chain(default_cache_regress()).chain(benign()) {
             queue.push_back(l);
         }
         Gen { queue, remaining: n, rng }
